@@ -19,6 +19,8 @@ PALETTE = [
     {},
     {"nonorthogonal_radial_range_power": 3.0},
     {"nonorthogonal_xpoint_poloidal_spacing_length": 0.03, "nonorthogonal_target_all_poloidal_spacing_length": 0.4},
+    {"nonorthogonal_spacing_method": "perp_orthogonal_combined"},
+    {"nonorthogonal_spacing_method": "orthogonal"},
 ]
 
 
@@ -29,34 +31,62 @@ def with_nonorth(spec, settings):
     return s
 
 
+def _entry(i):
+    if isinstance(i, tuple):
+        u = {}
+        for k in i:
+            u.update(PALETTE[k])
+        return u
+    return PALETTE[i]
+
+
+SKELETON_LENGTHS = ("nonorthogonal_xpoint_poloidal_spacing_length", "nonorthogonal_target_all_poloidal_spacing_length")
+
+
+def skeleton_key(settings):
+    """What the separatrix skeleton of a freshly built non-orthogonal mesh depends on (F31): the
+    spacing method and, for poloidal_orthogonal_combined only, the nonorthogonal_* spacing lengths
+    (getSfuncFixedSpacing, method 'nonorthogonal')."""
+    m = settings.get("nonorthogonal_spacing_method", "combined")
+    if m == "poloidal_orthogonal_combined":
+        return (m,) + tuple(settings.get(k) for k in SKELETON_LENGTHS)
+    return (m,)
+
+
 def plan(tier, seed):
-    bases = [cases.tok("cdn", s=1, fs=1, orth=False, tag="c15-cdn")]
     # an entry may be a tuple = union of palette entries; [5] and [1, (1, 5)] end with a call that
-    # changes ONLY the radial power, [(1, 3)...] only the method
-    hist_idx = [[5], [1, (1, 5)], [2, 4, 2]]
+    # changes ONLY the radial power, [0, (0, 3)] only the method
+    H_quick = [[5], [1, (1, 5)], [2, 4, 2]]
+    H_more = [[3, 0, 3, 1], [0, 0], [5, 6, 3], [6, 4], [0, (0, 3)], [6, (6, 5), 6], [3], [7], [8], [7, 4], [3, 7, 3]]
+    # a mesh BUILT with poloidal_orthogonal_combined (single null: the default 'combined' method is
+    # refused for this family), taken to other settings of the same method and back
+    H_poc = [[(0, 3)], [(5, 3), (6, 3)], [(1, 3), (2, 3), 3], [4], [(6, 3), 3]]
+    plans = [(cases.tok("cdn", s=1, fs=1, orth=False, tag="c15-cdn"), H_quick + (H_more if tier == "thorough" else [[0, (0, 3)]]))]
     if tier == "thorough":
-        bases += [cases.tok("ldn", s=-1, fs=1, orth=False, tag="c15-ldn"), cases.tok("udn", s=1, fs=-1, orth=False, guards=2, tag="c15-udn"), cases.tok("lsn", s=-1, fs=1, orth=False, tag="c15-lsn", nonorthogonal_spacing_method="poloidal_orthogonal_combined")]
-        hist_idx += [[3, 0, 3, 1], [0, 0], [5, 6, 3], [6, 4], [0, (0, 3)], [6, (6, 5), 6]]
+        plans += [
+            (cases.tok("ldn", s=-1, fs=1, orth=False, tag="c15-ldn"), H_quick + H_more[:6]),
+            (cases.tok("udn", s=1, fs=-1, orth=False, guards=2, tag="c15-udn"), H_quick + H_more[:6]),
+            (cases.tok("lsn", s=-1, fs=1, orth=False, tag="c15-lsn", nonorthogonal_spacing_method="poloidal_orthogonal_combined"), H_poc),
+            (cases.tok("cdn", s=-1, fs=-1, orth=False, guards=0, wall="slant", tag="c15-cdnpoc", nonorthogonal_spacing_method="poloidal_orthogonal_combined"), [[4], [5, 3], [(0, 3), 6]]),
+        ]
     cs = []
     jobs = []
-    for b in bases:
+    for b, hist_idx in plans:
         for hi in hist_idx:
-            hist = []
-            for i in hi:
-                if isinstance(i, tuple):
-                    u = {}
-                    for k in i:
-                        u.update(PALETTE[k])
-                    hist.append(u)
-                else:
-                    hist.append(PALETTE[i])
+            hist = [_entry(i) for i in hi]
             h = copy.deepcopy(b)
             h["history"] = hist
             h["tag"] = b["tag"] + "-hist" + "_".join(str(i).replace(" ", "") for i in hi)
             f = with_nonorth(b, hist[-1])
             f["tag"] = b["tag"] + "-fresh" + str(hi[-1]).replace(" ", "")
             cs += [h, f]
-            jobs.append({"name": "c15-" + h["tag"], "module": "vmon.jobs.pair_compare", "args": {"mode": "close", "a": h, "b": f, "pos_tol": 1e-7, "rel_tol": 1e-6, "cls": "history length %d vs fresh build" % len(hi)}, "timeout": 600})
+            cls = "history length %d vs fresh build" % len(hi)
+            k0 = skeleton_key({k: v for k, v in b["opts"].items() if k.startswith("nonorthogonal_")})
+            if skeleton_key(hist[-1]) != k0:
+                # the mesh was BUILT under settings whose separatrix skeleton differs from the one a
+                # fresh build with the final settings makes (redistributePoints never redoes it)
+                cls += "|initial skeleton differs"
+            jobs.append({"name": "c15-" + h["tag"], "module": "vmon.jobs.pair_compare", "args": {"mode": "close", "a": h, "b": f, "pos_tol": 1e-7, "rel_tol": 1e-6, "refusal_not_comparable": True, "cls": cls}, "timeout": 600})
     # de-duplicate fresh cases
     seen = set()
     out = []
@@ -71,5 +101,5 @@ def plan(tier, seed):
 
 
 def required(tier, classes, records):
-    pats = [("history of length 1", "history length 1"), ("history of length 2", "history length 2"), ("history of length 3", "history length 3"), ("stale cache probe", r"\|history")]
+    pats = [("history of length 1", "history length 1 vs fresh build$"), ("history of length 2", "history length 2 vs fresh build$"), ("history of length 3", "history length 3 vs fresh build$"), ("stale cache probe", r"\|history")]
     return need_classes(classes, pats)
